@@ -127,7 +127,7 @@ Cands ==
   \cup {Op("ctor_fill", s, 0, x, v, NoW) : s \in DeadS, x \in Exts, v \in {7}}
   \cup {Op("ctor_iota", s, 0, x, b, NoW) : s \in DeadS, x \in Exts, b \in {10, 50}}
   \cup UNION {{Op(nm, s, t, NoX, 0, w) : nm \in {"ctor_view", "decay", "ctor_range"}, s \in DeadS, w \in Wrappers(arr[t])} : t \in LiveS}
-  \cup {Op(nm, s, t, NoX, 0, NoW) : nm \in {"ctor_copy", "ctor_move", "ctor_ref", "ctor_rref", "ctor_other", "ctor_il"}, s \in DeadS, t \in LiveS}
+  \cup {Op(nm, s, t, NoX, 0, NoW) : nm \in {"ctor_copy", "ctor_move", "ctor_ref", "ctor_rref", "ctor_other", "ctor_other_x", "ctor_il"}, s \in DeadS, t \in LiveS}
   \* assignments to a live slot
   \cup UNION {{Op(nm, s, t, NoX, 0, NoW) : nm \in {"assign_copy", "assign_move", "assign_other", "assign_il", "swap", "assign_range"}, t \in LiveS \ {s}} : s \in LiveS}
   \cup UNION {UNION {{Op(nm, s, t, NoX, 0, w) : nm \in {"assign_view", "assign_rview"}, w \in Wrappers(arr[t])} : t \in LiveS \ {s}} : s \in LiveS}
@@ -171,7 +171,7 @@ Result(o) ==   \* new value of slot o.s
     \* nested initializer lists are zero-based
     [] o.op \in {"ctor_il", "assign_il"} -> Arr(arr[o.t].shape, Zeros(DimD), arr[o.t].val)
     \* (ctor_rref: from a TEMPORARY array_ref over the source's storage: a reference, so the source keeps its elements)
-    [] o.op \in {"ctor_copy", "ctor_move", "ctor_ref", "ctor_rref", "ctor_other",
+    [] o.op \in {"ctor_copy", "ctor_move", "ctor_ref", "ctor_rref", "ctor_other", "ctor_other_x",
                  "assign_copy", "assign_move", "assign_other", "ref_assign", "ref_assign_move"} -> arr[o.t]
     [] o.op = "swap"          -> arr[o.t]
     [] o.op = "self_assign"   -> arr[o.s]
@@ -208,7 +208,7 @@ AllocAfter(o) ==
     [] o.op = "assign_move" -> IF POCMA THEN alloc[o.t] ELSE alloc[o.s]
     [] o.op = "swap" -> IF POCS THEN alloc[o.t] ELSE alloc[o.s]
     [] o.op = "destroy" -> 0
-    [] o.op \in {"ctor_default", "ctor_ext", "ctor_fill", "ctor_iota", "ctor_view", "decay", "ctor_range", "ctor_ref", "ctor_rref", "ctor_other", "ctor_il"} -> 0
+    [] o.op \in {"ctor_default", "ctor_ext", "ctor_fill", "ctor_iota", "ctor_view", "decay", "ctor_range", "ctor_ref", "ctor_rref", "ctor_other", "ctor_other_x", "ctor_il"} -> 0
     [] OTHER -> alloc[o.s]
 AllocSourceAfter(o) ==
   CASE o.op = "swap" -> IF POCS THEN alloc[o.s] ELSE alloc[o.t]
